@@ -20,7 +20,7 @@ from ..runner import h64
 PROPERTY = 'C07'
 RULE = ('every shipped interface x message (requests sent, events received, plus the flipped direction) x argument position; '
         'enum-typed integers: every entry value, 0, one value outside, bitfields: all subsets when <= 10 entries else singles + '
-        'pairs + all + 64 random unions; nil for every object/nullable string argument; an interface unknown to the XML; '
+        'pairs + all + 64 random unions; nil for every object/nullable string argument; an interface unknown to the XML and undescribed names one edit or one version number away from described ones; '
         'synthetic 2..5-version descriptions in every load order; generated protocol sets (6 x 6 quick, 46 x 120 thorough) swept the '
         'same way (exhaustive refers to the shipped set). distinct = (interface, message, argument values); '
         'non-trivial = a line whose expectation contains a name, a nil type or a label')
